@@ -1027,8 +1027,8 @@ func main() {
 
 	d := boot()
 	warmBinding()
-	nBound := r.Pick(96, 4000)
-	nUnbound := r.Pick(24, 600)
+	nBound := r.Pick(96, 1600)
+	nUnbound := r.Pick(24, 320)
 	workers := runtime.NumCPU()
 	if workers > 16 {
 		workers = 16
